@@ -705,6 +705,9 @@ impl Mem for GhostMem {
             if gh.panic_len_on && !gh.v[self.k].len_ptr.is_null() {
                 kani::assert(cur_len(self.k) == gh.panic_len, "beyond a fixed capacity: the length is untouched at the moment the backend refuses to grow");
             }
+            // the refusal unwinds through the operation in progress: whatever the vectors show now is what
+            // the caller is left with (C11: "... leaves the contents unchanged / valid")
+            callout_invariant();
             // the trait's default behaviour for fixed-capacity memory
             panic!("Can't change capacity!");
         }
